@@ -65,6 +65,10 @@ ALPHABET = (
      (ftpsim.DATACONN, ""), (ftpsim.DATACONN, ""),
      ("USER", "u"), ("USER", "nopw"), ("USER", "nobody"), ("USER", "v"), ("PASS", "pw"), ("PASS", "bad"), ("PASS", "pw2")]
     + [("REST", a) for a in ["0", "3", "10", "100", "abc", "", "٣", "²", "-1", "1 2"]]
+    # the numeric edge of REST: the widest accepted offset (18 digits), 19 / 20 / 25 digits, 2**63, leading zeros, a sign, white
+    # space around the number, and digit strings at / beyond CPython's int() limit (sys.get_int_max_str_digits() = 4300)
+    + [("REST", a) for a in ["1" * 4301, "0" * 5000, "1" * 4300, "9" * 18, "1" * 19, "9" * 20, "1" * 25, str(2 ** 63), "0005",
+                             "0" * 18 + "7", "+5", "5 ", " 5"]]
     + [(v, p) for v in ["CWD", "MKD", "RMD", "DELE", "RNFR", "RNTO", "MLST", "LIST", "MLSD", "RETR", "STOR", "APPE"] for p in PATHS]
 )
 PAYLOADS = [b"", b"XY", b"abcdefghijklmnop"]
@@ -78,7 +82,9 @@ def user_sx(u):
 
 def event_sx(e):
     verb, arg, payload = e
-    return [verb.lower() if verb != ftpsim.DATACONN else verb, arg, [payload] if payload is not None else []]
+    # the model's event carries the argument as Server.parse_command hands it to the handler: the decoded line is
+    # str.rstrip()ped today (trailing white space of any kind is not part of the argument: C06 / finding F22)
+    return [verb.lower() if verb != ftpsim.DATACONN else verb, arg.rstrip(), [payload] if payload is not None else []]
 
 
 def decode_out(o):
@@ -138,6 +144,8 @@ def classify(table, events, i, why):
     v = verb.lower()
     if v == "rest" and arg.isdigit() and not arg.isdecimal():
         return "c05-rest-nondecimal-digit-drops-session"
+    if v == "rest" and arg.isascii() and arg.isdigit() and len(arg) > 4300:
+        return "c05-rest-overlong-digit-string-drops-session"
     if v == "epsv" and arg and why in ("ended-unannounced",):
         return "c05-epsv-arg-522-then-session-closed"
     if why == "rest-survives-transfer":
